@@ -72,8 +72,21 @@ def check(ctx, rep, nsets):
         nonlinear = rng.random() < 0.85
         flag = np.full((1, D), np.nan) if nonlinear else np.zeros((1, D))
         case = {"kind": "bounds", "lb": [enc(v) for v in lb], "ub": [enc(v) for v in ub], "plb": [enc(v) for v in plb], "pub": [enc(v) for v in pub], "nonlinear": nonlinear}
+        arrs = [np.array([lb]), np.array([ub]), np.array([plb]), np.array([pub])]
+        keep = [a.copy() for a in arrs]
         try:
-            vt = VariableTransformer(D, np.array([lb]), np.array([ub]), np.array([plb]), np.array([pub]), flag)
+            vt = VariableTransformer(D, arrs[0], arrs[1], arrs[2], arrs[3], flag)
+            # the bound set is the caller's: building a transformer must leave it as it was, so that the SAME arrays define the same map again
+            # (a second start of a multi-start loop, a sibling transformer)
+            if any(not np.array_equal(a, k, equal_nan=True) for a, k in zip(arrs, keep)):
+                rep.violation("bound_set_untouched", SITE + ".__init__", f"constructing the transformer changed the caller's bound arrays: lb={lb} ub={ub} plb={plb} pub={pub} -> "
+                              f"{[a.ravel().tolist() for a in arrs]}", case)
+                continue
+            if si % 5 == 0:
+                vt2 = VariableTransformer(D, arrs[0], arrs[1], arrs[2], arrs[3], flag)
+                if not (np.array_equal(vt2.lb, vt.lb) and np.array_equal(vt2.ub, vt.ub) and np.array_equal(vt2.apply_log_t, vt.apply_log_t)):
+                    rep.violation("bound_set_untouched", SITE + ".__init__", f"a second transformer built from the same bound arrays differs from the first: lb={lb} ub={ub} plb={plb} pub={pub}", case)
+                    continue
         except ValueError as ex:
             stats["rejected_sets"] += 1
             rep.violation("valid_bounds_accepted", SITE, f"valid bound set rejected: {str(ex)[:80]}; lb={lb} ub={ub} plb={plb} pub={pub}", case)
